@@ -130,20 +130,25 @@ func newC20World() *c20World {
 	scheme := k8sruntime.NewScheme()
 	_ = v1alpha1.AddToScheme(scheme)
 	_ = apiextensionsv1.AddToScheme(scheme)
-	crd := func(res, kind string, status bool) *apiextensionsv1.CustomResourceDefinition {
+	crd := func(res, kind string, status, oldStatus bool) *apiextensionsv1.CustomResourceDefinition {
 		v := apiextensionsv1.CustomResourceDefinitionVersion{Name: "v1", Served: true, Storage: true}
 		if status {
 			v.Subresources = &apiextensionsv1.CustomResourceSubresources{Status: &apiextensionsv1.CustomResourceSubresourceStatus{}}
 		}
 		return &apiextensionsv1.CustomResourceDefinition{ObjectMeta: metav1.ObjectMeta{Name: res + ".ex.io"},
-			// served in two versions, the older one listed first (both with the same subresources)
+			// served in two versions, the older one listed first; subresources are per version: the older version of
+			// nothings HAS a status subresource, the one the controllers name has not
 			Spec: apiextensionsv1.CustomResourceDefinitionSpec{Group: "ex.io", Names: apiextensionsv1.CustomResourceDefinitionNames{Plural: res, Kind: kind}, Versions: []apiextensionsv1.CustomResourceDefinitionVersion{func() apiextensionsv1.CustomResourceDefinitionVersion {
 				old := *v.DeepCopy()
 				old.Name, old.Storage = "v1beta1", false
+				old.Subresources = nil
+				if oldStatus {
+					old.Subresources = &apiextensionsv1.CustomResourceSubresources{Status: &apiextensionsv1.CustomResourceSubresourceStatus{}}
+				}
 				return old
 			}(), v}}}
 	}
-	k8s := fake.NewClientBuilder().WithScheme(scheme).WithObjects(crd("things", "Thing", true), crd("nothings", "NoThing", false)).Build()
+	k8s := fake.NewClientBuilder().WithScheme(scheme).WithObjects(crd("things", "Thing", true, true), crd("nothings", "NoThing", false, true)).Build()
 	ctx := common.ControllerContext{K8sClient: k8s, Resources: b.Resources, DynClient: b.DynClient, DynInformers: b.Factory,
 		McInformerFactory: mcinformers.NewSharedInformerFactory(b.McClient, time.Hour), McClient: b.McClient, EventRecorder: b.Rec}
 	x := &c20World{Base: b, k8s: k8s, object: map[string]string{}, running: map[string]string{}, inst: map[string]*parentController{},
